@@ -157,11 +157,16 @@ def read (cv : Int → Option Int) (h : Heap) (src : Buf) (dst : List Int) : Res
   | none => .unspec
   | some vals => .ok h (vals ++ dst.drop m, channelLength m src.ch)
 
+/-- the value `WriteStriped` stores at frame `i` of a channel whose input slice is `col`:
+`i < len(src[c]) ? D(src[c][i]) : 0` -/
+def stripedVal (cv : Int → Option Int) (col : List Int) (i : Nat) : Option Int :=
+  if i < col.length then cv (col.getD i 0) else some 0
+
 /-- one channel of `WriteStriped`: `for i < written { SetSample(BufferIndex(c,i), i < len(src[c]) ? D(src[c][i]) : 0) }` -/
 def wsChan (cv : Int → Option Int) (dst : Buf) (c : Nat) (col : List Int) : List Nat → Heap → Res Unit
   | [], h => .ok h ()
   | i :: is, h =>
-    match (if i < col.length then cv (col.getD i 0) else some 0) with
+    match stripedVal cv col i with
     | none => .unspec
     | some y =>
       match dst.setSample h (bufferIndex dst.ch c i) y with
